@@ -116,57 +116,31 @@ impl Router {
         if let Some(((_, path_rules), trie_matches)) =
             self.tree.lookup_with_path(hostname_b, true, trie_path)
         {
-            let mut prefix_length = 0;
+            // Select the best rule of the leaf by a fixed rank, so the answer
+            // never depends on the order in which frontends were added:
+            // EQUALS over REGEX over longest PREFIX (see doc/configure.md), a
+            // method-specific rule over a method-agnostic one of the same
+            // path rank, and - as before - an EQUALS/REGEX rule naming the
+            // request's method over every method-agnostic rule. On a full
+            // tie (e.g. two matching REGEX rules) the first added rule wins.
+            let mut best_rank: Option<(u8, u8, usize, u8)> = None;
             let mut matched: Option<(&PathRule, &Route)> = None;
 
             for (rule, method_rule, route) in path_rules {
-                match rule.matches(path_b) {
-                    PathRuleResult::Regex | PathRuleResult::Equals => {
-                        match method_rule.matches(method) {
-                            MethodRuleResult::Equals => {
-                                return Ok(RouteResult::new_with_trie(
-                                    hostname_b,
-                                    trie_matches,
-                                    path_b,
-                                    rule,
-                                    route,
-                                ));
-                            }
-                            MethodRuleResult::All => {
-                                prefix_length = path_b.len();
-                                matched = Some((rule, route));
-                            }
-                            MethodRuleResult::None => {}
-                        }
-                    }
-                    PathRuleResult::Prefix(size) => {
-                        if size >= prefix_length {
-                            match method_rule.matches(method) {
-                                // FIXME: the rule order will be important here
-                                MethodRuleResult::Equals => {
-                                    // Longest-prefix wins: the selected
-                                    // length is monotonically non-decreasing
-                                    // across the candidate scan.
-                                    debug_assert!(
-                                        size >= prefix_length,
-                                        "longest-prefix selection must never shrink the match length",
-                                    );
-                                    prefix_length = size;
-                                    matched = Some((rule, route));
-                                }
-                                MethodRuleResult::All => {
-                                    debug_assert!(
-                                        size >= prefix_length,
-                                        "longest-prefix selection must never shrink the match length",
-                                    );
-                                    prefix_length = size;
-                                    matched = Some((rule, route));
-                                }
-                                MethodRuleResult::None => {}
-                            }
-                        }
-                    }
-                    PathRuleResult::None => {}
+                let method_rank = match method_rule.matches(method) {
+                    MethodRuleResult::Equals => 1u8,
+                    MethodRuleResult::All => 0u8,
+                    MethodRuleResult::None => continue,
+                };
+                let rank = match rule.matches(path_b) {
+                    PathRuleResult::Equals => (1u8, method_rank, 2usize, method_rank),
+                    PathRuleResult::Regex => (1u8, method_rank, 1usize, method_rank),
+                    PathRuleResult::Prefix(size) => (0u8, 0u8, size, method_rank),
+                    PathRuleResult::None => continue,
+                };
+                if best_rank.is_none_or(|best| rank > best) {
+                    best_rank = Some(rank);
+                    matched = Some((rule, route));
                 }
             }
 
